@@ -1,6 +1,7 @@
 import RichModel.Lemmas.Totality
 import RichModel.Lemmas.TotalityLayout
 import RichModel.Lemmas.AnsiLine
+import RichModel.Lemmas.TotalityTitle
 /-!
 # C14 — no input makes the pipeline fail with an undocumented error
 
@@ -223,6 +224,26 @@ theorem text_measure_total_rich (cw : Char → Nat) (plain : List Char) :
     ∃ m, textRichMeasureE pyIsSpace pyIsSpace cw plain = .ok m :=
   text_measure_total pyIsSpace pyIsSpace (fun _ h => h) cw plain
 
+/-- **text_measure_total_nl.**  The same for `Text.__rich_measure__` as /repo has it since fix 542a59e (the maximum over
+`text.split("\n")` instead of `text.splitlines()`; `textRichMeasureNL` is what the driver answers `c14_text_measure` with;
+`textRichMeasureE` above is the code before that fix): every text, every width function, any guard covering `split`. -/
+theorem text_measure_total_nl (guard split : Char → Bool) (h : ∀ c, split c = true → guard c = true) (cw : Char → Nat)
+    (plain : List Char) : ∃ m, textRichMeasureNL guard split cw plain = .ok m :=
+  textRichMeasureNL_total guard split h cw plain
+
+theorem text_measure_total_nl_rich (cw : Char → Nat) (plain : List Char) :
+    ∃ m, textRichMeasureNL pyIsSpace pyIsSpace cw plain = .ok m :=
+  text_measure_total_nl pyIsSpace pyIsSpace (fun _ h => h) cw plain
+
+/-- the narrow guard still raises with the new line split (seeded change C14-f1) -/
+theorem narrow_guard_measure_raises_nl :
+    textRichMeasureNL asciiBlank pyIsSpace (fun _ => 1) [Char.ofNat 0xA0] = .error .valueError := by decide
+
+example : textRichMeasureNL pyIsSpace pyIsSpace (fun _ => 1) ['a', 'b', ' ', 'c', '\n', 'd'] = .ok ⟨2, 4⟩ := by decide
+/-- where the two differ: U+2028 ends a line for `splitlines()` only -/
+example : textRichMeasureNL pyIsSpace pyIsSpace (fun _ => 1) ['a', Char.ofNat 0x2028, 'b'] = .ok ⟨1, 3⟩ ∧
+    textRichMeasureE pyIsSpace pyIsSpace (fun _ => 1) ['a', Char.ofNat 0x2028, 'b'] = .ok ⟨1, 1⟩ := by decide
+
 /-- a guard that strips only `" \t\n"` while `split()` keeps Python's white space: a cell holding a NO-BREAK SPACE raises
 `ValueError` when it is measured (seeded change C14-f1) -/
 theorem narrow_guard_measure_raises :
@@ -307,6 +328,57 @@ theorem old_layout_raises :
 /-- … and not with the repaired code -/
 example : (render exCfg (.group true [.table { expand := true } [], .columns { lay := { width := some 30 } } [exText "ab"]]) {} 3).all
     (fun g => g.text != ['!']) = true := by decide
+
+end
+
+/-! ## `expand_tabs()` on a user `Text`: Rule / Panel titles, `with_indent_guides` (deepening 4, finding C14-T1)
+
+`tabAssert = true` is rich as found (`assert tab_size is not None`, text.py:643) — C05's `Text.expandTabs`, the function C08's
+title models call; `tabAssert = false` is pending_fixes/C14-expand-tabs-tab-size-none-assertion.diff (`if tab_size is None:
+tab_size = 8`).  `TabOk t`: the text's `tab_size` option has a documented value — `None`, or a number ≥ 1. -/
+
+section
+open RichModel.Text
+
+/-- **title_expand_tabs_total.**  With the repair, for every consistent `Text` — any content (tabs, line feeds), any spans,
+every documented `tab_size` INCLUDING `None`, every other option — the title preparation of `Rule.__rich_console__`
+(rule.py:76-79), `Panel._title` (panel.py:93-106, used by `__rich_console__` and `__rich_measure__`) and the
+`copy(); expand_tabs()` of `Text.with_indent_guides` succeed and return a consistent text.  No bound on the length. -/
+theorem title_expand_tabs_total {σ : Type} [BEq σ] (t : Text σ) (hi : Text.Inv t) (ht : TabOk t) :
+    (∃ q, ruleTitlePrep false Variant.repaired t = .ok q ∧ Text.Inv q) ∧
+    (∃ q, panelTitle false Variant.repaired t = .ok q ∧ Text.Inv q) ∧
+    (∃ q, guidesPrep false Variant.repaired t = .ok q ∧ Text.Inv q) :=
+  ⟨ruleTitlePrep_total t hi ht, panelTitle_total t hi ht, guidesPrep_total t hi ht⟩
+
+/-- **expand_tabs_repair_conservative.**  The repair changes `expand_tabs(tab_size)` only where the code as found raised the
+`AssertionError`: whenever a tab size is in force (the argument, else the text's attribute) both variants are the same
+function — every existing theorem about `Text.expandTabs` with a tab size carries over. -/
+theorem expand_tabs_repair_conservative {σ : Type} [BEq σ] (v : Variant) (t : Text σ) (ts : Option Nat) (n : Nat)
+    (h : ts.orElse (fun _ => t.tabSize) = some n) :
+    expandTabsV false v t ts = t.expandTabs v ts :=
+  expandTabsV_agree v t ts n h
+
+/-- a title `Text("a\tb", tab_size=None)`: every option documented -/
+def exTabTitle : Text Nat := Text.new Variant.repaired ['a', '\t', 'b'] 0 [] none none none ['\n'] none
+
+example : Text.Inv exTabTitle ∧ TabOk exTabTitle :=
+  ⟨text_ctor_total _ _ [] none none none _ _ (by intro sp h; cases h), by intro n h; cases h⟩
+example : (ruleTitlePrep false Variant.repaired exTabTitle).toOption.map (·.plain) = some (cl! "a       b") := by decide
+example : (panelTitle false Variant.repaired exTabTitle).toOption.map (·.plain) = some (cl! " a       b ") := by decide
+example : (none : Option Nat).orElse (fun _ => (Text.new Variant.repaired ['\t'] (0 : Nat)).tabSize) = some 8 := rfl
+
+/-- C14-T1, the code as found: `Rule(Text("a\tb", tab_size=None))` raises `AssertionError` when rendered … -/
+theorem old_rule_title_tab_assertion : ruleTitlePrep true Variant.repaired exTabTitle = .error .assertionError := by decide
+
+/-- … so does `Panel("x", title=Text("a\tb", tab_size=None))`, rendered or measured … -/
+theorem old_panel_title_tab_assertion : panelTitle true Variant.repaired exTabTitle = .error .assertionError := by decide
+
+/-- … and `Text("a\tb", tab_size=None).with_indent_guides()`. -/
+theorem old_indent_guides_tab_assertion : guidesPrep true Variant.repaired exTabTitle = .error .assertionError := by decide
+
+/-- without a tab the code as found does not raise either (the assertion sits behind `if "\t" not in self.plain: return`) -/
+example : (ruleTitlePrep true Variant.repaired (Text.new Variant.repaired ['a', '\n', 'b'] (0 : Nat) [] none none none ['\n'] none)).toOption.map (·.plain)
+    = some (cl! "a b") := by decide
 
 end
 
